@@ -642,6 +642,8 @@ func runCheck(prop, tier string, only, casesOverride, budgetOverride int) int {
 		"exhaustive":                false,
 		"simulated_runs":            a.stats.Runs,
 		"simulated_runs_per_hour":   int64(runsPerHour),
+		"cases_per_hour":            int64(float64(a.stats.Evaluations) / wall * 3600),
+		"seeds_per_hour":            float64(len(seeds)) / wall * 3600,
 		"seeds":                     seeds,
 		"logical_steps":             a.stats.Steps,
 		"filesystem_and_stream_ops": a.stats.Ops,
